@@ -26,5 +26,8 @@ def fill(add, not_yet):
     add("C02", "Lean 4 theorems about the delay-and-sum model (mean = (1/N) sum of terms, interpolation specs, amplitude-one law, dispatcher table, geometric-median certificate) + exact-rational (nearest/linear) and Float (Lanczos) correspondence with delay_and_sum + Fraction oracle",
         "Proof on the polymorphic kernel model; the same definitions are evaluated exactly on rationals by the driver and compared with arim on dyadic data (tolerance 8(N+2) ulp of the summed magnitudes, zero in most cases), including a boundary stream around the window edges; median/Huber are certified through their objectives.",
         STD_NOTE + "fastmath reassociation, Lanczos kernel values and the two iterative solvers are outside the proofs; known findings K1a-K1e (geomed/huber degenerate inputs) are listed in known_findings.json.")
-    for p in ["C03","C04","C05","C06","C07","C08","C09","C10","C11","C12","C16","C17","C19"]:
+    add("C12", "Lean 4 theorems about the TFM pipeline model (contact = delay-and-sum with straight-ray tables and default weights; view = transposed ray times; HMC=FMC, reciprocal views, spike focus in exact arithmetic) + exact-rational correspondence with contact_tfm / tfm_for_view + bitwise lookup-table correspondence",
+        "Proof on the composed model (C01 leg time, C15 weights, C02 kernels); contact_tfm and tfm_for_view are compared with the model evaluated exactly on rationals, the straight-ray table bit for bit; the identities of the property are evaluated on arim with real ray tracing (C/Fortran order).",
+        STD_NOTE)
+    for p in ["C03","C04","C05","C06","C07","C08","C09","C10","C11","C16","C17","C19"]:
         not_yet[p] = "check not built yet in this round (work in progress; Lean-4 proof + correspondence planned, see DESIGN.md section 6)"
